@@ -2,6 +2,8 @@ import M3d.Lemmas.ParamNum
 import M3d.Lemmas.ParamGrow
 import M3d.Lemmas.ParamEuler
 import M3d.Lemmas.ParamDisc
+import M3d.Lemmas.ParamNear
+import M3d.Lemmas.ParamHist
 /-!
 # C18 — Surface parameterisations are valid, disjoint and invertible
 
@@ -137,6 +139,36 @@ theorem floater_row_convex_comb (nbs : List (Nb K)) (i : Nat) (x y : Nat → K)
 example : rowLhs (floaterRow [Nb.fixed (⟨1, 0⟩ : V2 Rat) (1/2), Nb.fixed ⟨0, 1⟩ (1/2)]) 0 (fun _ => 1/2) =
     (floaterRow [Nb.fixed (⟨1, 0⟩ : V2 Rat) (1/2), Nb.fixed ⟨0, 1⟩ (1/2)]).bias.x := by decide +kernel
 
+/-- **A solve never touches the caller's boundary map, however many solves share it.**  `h` is the
+heap of `CoordMap`s, `bref` the boundary pointer every solve of the history receives, `sols` one
+solution oracle per solve (different weightings, `Floater97` followed by the solves of
+`StretchMinimizingParameterization`, … — whatever the solver returned).  After the whole history:
+every map that existed before — in particular `*bref` — is unchanged; there is one fresh result
+map per solve; and the `k`-th result is the boundary map extended by the `k`-th solution: it equals
+the boundary map on the boundary and holds the solved position at every other mesh vertex (so the
+set of unknowns of every solve is the same: the vertices without an entry in the ORIGINAL boundary
+map, and the weighted-mean equation of `floater_row_convex_comb` is about this call's weights). -/
+theorem floater_history_keeps_boundary {β : Type} (h : Heap β) (bref : Nat) (verts : List Nat) (sols : List (Nat → β))
+    (hb : bref < h.length) (hwf : ((h.get bref).map Prod.fst).Nodup) :
+    (solveHist bref verts h sols).1.get bref = h.get bref ∧
+    (∀ r, r < h.length → (solveHist bref verts h sols).1.get r = h.get r) ∧
+    List.Forall₂ (fun sol rr => h.length ≤ rr ∧
+        (∀ v p, (h.get bref).load v = some p → ((solveHist bref verts h sols).1.get rr).load v = some p) ∧
+        (∀ v, (h.get bref).load v = none → v ∈ verts → ((solveHist bref verts h sols).1.get rr).load v = some (sol v)) ∧
+        (∀ v, (h.get bref).load v = none → v ∉ verts → ((solveHist bref verts h sols).1.get rr).load v = none))
+      sols (solveHist bref verts h sols).2 := by
+  obtain ⟨h1, _, h3⟩ := solveHist_spec bref verts sols h hb hwf
+  refine ⟨h1 bref hb, h1, h3.imp ?_⟩
+  intro sol rr ⟨a1, _, a3⟩
+  refine ⟨a1, fun v p hv => ?_, fun v hv hm => ?_, fun v hv hm => ?_⟩
+  · rw [a3 v]; simp [resultSpec, hv]
+  · rw [a3 v]; simp [resultSpec, hv, hm]
+  · rw [a3 v]; simp [resultSpec, hv, hm]
+
+/-- Non-vacuity: two solves over the boundary map `{0 ↦ 10, 1 ↦ 11}` of a mesh with vertices 0, 1, 2. -/
+example : (solveHist 0 [0, 1, 2] [[(0, 10), (1, 11)]] [fun _ => (7 : Nat), fun _ => 8]) =
+    ([[(0, 10), (1, 11)], [(0, 10), (1, 11), (2, 7)], [(0, 10), (1, 11), (2, 8)]], [1, 2]) := by decide
+
 /-- **A weighted mean with non-negative weights lies in the axis-aligned hull of its points.** -/
 theorem weighted_mean_in_hull (l : List (K × K)) (lo hi : K) (hw : ∀ q ∈ l, 0 ≤ q.1) (hpos : 0 < wtot l)
     (hlo : ∀ q ∈ l, lo ≤ q.2) (hhi : ∀ q ∈ l, q.2 ≤ hi) :
@@ -230,6 +262,33 @@ theorem quadtree_cells_disjoint_in_unit (t : QT) (r : Rect K) (hv : r.Valid) (bo
 example : (joined (1/8 : Rat) ⟨⟨0, 0⟩, ⟨1, 1⟩⟩ (.n4 (.leaf 0) (.leaf 1) (.n2 (.leaf 2) (.leaf 3)) .empty)).length = 4 := by
   decide +kernel
 
+
+/-- **The automatic atlas covers every triangle exactly once.**  `BuildAutomaticUVMap` decomposes the
+mesh with `MeshToPlaneGraphsLimited` and hands every disc to `handleDisc`, which either appends it
+to the atlas or replaces it by the pieces of `SplitPlaneGraph` (recursively, for every recursion
+bound).  Whatever the stretch / area / validity oracle `want` decides — in particular for an
+over-stretched disc that cannot be split any further (tiny area share, single triangle, depth
+limit) — the appended charts'
+concatenation is a permutation of the mesh: no triangle is left without a chart, none is in two.
+Both decompositions are instances of `planeGraphs` (`charts_partition`), for every policy. -/
+theorem atlas_covers_every_triangle_once (P Q : Policy) (fuel dfuel : Nat) (want : Nat → List Tri → Bool) (m : List Tri) :
+    (atlasCharts (fun m => planeGraphs P false fuel m.length m) (fun d => planeGraphs Q true fuel d.length d)
+      want dfuel m).flatten.Perm m :=
+  atlasCharts_perm _ _ want dfuel m (charts_partition P false fuel m.length m (Nat.le_refl _))
+    (fun d => charts_partition Q true fuel d.length d (Nat.le_refl _))
+
+/-- … stated for any decomposition functions that partition their input. -/
+theorem atlas_recursion_partitions (first split : List Tri → List (List Tri)) (want : Nat → List Tri → Bool) (dfuel : Nat)
+    (m : List Tri) (hf : (first m).flatten.Perm m) (hs : ∀ d, (split d).flatten.Perm d) :
+    (atlasCharts first split want dfuel m).flatten.Perm m ∧
+    (m.Nodup → (atlasCharts first split want dfuel m).flatten.Nodup) := by
+  have hp := atlasCharts_perm first split want dfuel m hf hs
+  exact ⟨hp, fun hnd => hp.nodup_iff.mpr hnd⟩
+
+/-- Non-vacuity: a disc of two triangles that the oracle always wants split ends as two single-triangle charts. -/
+example : atlasCharts (fun m => [m]) (fun d => d.map fun t => [t]) (fun _ _ => true) 8 [(0, 1, 2), (0, 2, 3)] =
+    [[(0, 1, 2)], [(0, 2, 3)]] := by decide
+
 /-- **`ToBounds` is an affine map of the chart's bounding box onto its cell.**  Per coordinate:
 it is `c ↦ s·c + t` with `s = (max−min)/(oldMax−oldMin)`, sends `oldMin ↦ min` and (box
 non-degenerate) `oldMax ↦ max`, maps the old interval into the new one, and is inverted by the
@@ -289,5 +348,99 @@ theorem mapfn_returns_containing (uv : List (Tri2 K)) (p : V2 K) (i : Nat) (w : 
         rw [this, List.getElem?_cons_succ]; exact hu
   obtain ⟨u, hu, _, hw⟩ := key uv 0 h
   exact ⟨u, by simpa using hu, hw⟩
+
+/-! ## `MapFn` for a UV point outside every UV triangle: the nearest triangle -/
+
+omit [Field K] [IsStrictOrderedRing K] in
+/-- **The pruned nearest search equals the linear scan, for every sound bound.**  `nearestGo` is
+`tri2dLookup.findNearest`: at every inner node the child with the smaller bound value is searched
+first and the loop `break`s at the first child whose bound value exceeds the best key so far.
+For every hierarchy `t`, every bound function `lb` and key function `key` such that each node's
+bound value is at most the key of every item below it: the search is the linear scan
+(`scanBest`: first item of smallest key) over a permutation of the items — the order in which this
+query visits them — and returns an item whose key is smallest among ALL items.  (Instance of the
+generic `Prune.Forest.search_eq_foldl` of C08.) -/
+theorem mapfn_nearest_search_eq_scan {ι β : Type} (lb : β → K) (key : ι → K) (t : NTree ι β)
+    (hs : t.Sound fun b i => lb b ≤ key i) :
+    nearestGo lb key t none = scanBest key (Prune.Forest.items (NTree.kids lb t)) ∧
+    (Prune.Forest.items (NTree.kids lb t)).Perm t.items ∧
+    ∃ i, nearestGo lb key t none = some (i, key i) ∧ i ∈ t.items ∧ ∀ j ∈ t.items, key i ≤ key j := by
+  have hperm := kids_items_perm lb t
+  have hne : Prune.Forest.items (NTree.kids lb t) ≠ [] := fun h0 =>
+    NTree.items_ne_nil t (List.Perm.eq_nil (h0 ▸ hperm.symm))
+  obtain ⟨i, he, hm, hall⟩ := scanBest_min key _ hne
+  refine ⟨nearestGo_eq_scan lb key t hs, hperm, i, ?_, hperm.mem_iff.1 hm, fun j hj => hall j (hperm.mem_iff.2 hj)⟩
+  rw [nearestGo_eq_scan lb key t hs, he]
+
+/-- Non-vacuity: three items under sound bounds; the second child is searched first and the first is pruned. -/
+example : nearestGo (fun b : Nat => b) (fun i : Nat => i) (.node 0 (.node 5 (.leaf 7 7) (.leaf 5 5)) (.leaf 2 2)) none = some (2, 2) := by
+  decide
+
+/-- **The hierarchy `newTri2dLookup` builds is sound for the `Rect.SDF` bound, for every query and
+every order of the triangles**: its items are the triangles in the given order and every node's
+bound value `rectLB` is at most the squared boundary distance of every triangle below it. -/
+theorem mapfn_lookup_tree_sound (f : Nat) (l : List (Tri2 K × Nat)) (t : NTree (Tri2 K × Nat) (Rect K)) (p : V2 K)
+    (h : buildTree (fun (it : Tri2 K × Nat) => triBounds it.1) Rect.join f l = some t) :
+    t.items = l ∧ t.Sound (fun r it => rectLB r p ≤ (triNearest it.1 p).1) :=
+  tri2dTree_sound f l t p h
+
+/-- **`MapFn` at a point outside every UV triangle returns the NEAREST triangle and its nearest
+point.**  If no UV triangle contains `p` (`findContains = none`) and `Find` returns triangle `i` with
+coordinates `w`, then `w` are the barycentric coordinates `genericSDF` reports for triangle `i` —
+non-negative, summing to 1, i.e. a point of that triangle, at squared distance `(triNearest u p).1`
+from `p` — and no triangle of the map has a boundary point closer to `p` than that. -/
+theorem mapfn_outside_returns_nearest (ts : List (Tri2 K)) (p : V2 K) (i : Nat) (w : K × K × K)
+    (hout : findContains ts p = none) (h : findUV ts p = some (i, w)) :
+    ∃ u, ts[i]? = some u ∧ w = (triNearest u p).2 ∧
+      0 ≤ w.1 ∧ 0 ≤ w.2.1 ∧ 0 ≤ w.2.2 ∧ w.1 + w.2.1 + w.2.2 = 1 ∧
+      dist2 (atBary2 u w) p = (triNearest u p).1 ∧
+      ∀ u' ∈ ts, (triNearest u p).1 ≤ (triNearest u' p).1 := by
+  unfold findUV at h
+  rw [hout] at h
+  simp only at h
+  split at h
+  · exact absurd h (by simp)
+  · rename_i tree htree
+    obtain ⟨hitems, hsound⟩ := tri2dTree_sound _ _ tree p htree
+    obtain ⟨_, _, it, he, hm, hall⟩ := mapfn_nearest_search_eq_scan (fun r => rectLB r p)
+      (fun (it : Tri2 K × Nat) => (triNearest it.1 p).1) tree hsound
+    rw [he] at h
+    simp only [Option.map_some, Option.some.injEq, Prod.mk.injEq] at h
+    obtain ⟨rfl, rfl⟩ := h
+    rw [hitems] at hm hall
+    obtain ⟨b1, b2, b3, b4, b5⟩ := triNearest_point it.1 p
+    refine ⟨it.1, List.mem_zipIdx_iff_getElem?.1 hm, rfl, b1, b2, b3, b4, b5.symm, ?_⟩
+    intro u' hu'
+    obtain ⟨k, hk⟩ := List.getElem?_of_mem hu'
+    exact hall (u', k) (List.mk_mem_zipIdx_iff_getElem?.2 hk)
+
+/-- Non-vacuity: two triangles, a query to the right of both; the nearer one (index 1) and the corner (1,0). -/
+example : findUV [⟨⟨-2, 0⟩, ⟨-1, 0⟩, ⟨-2, 1⟩⟩, ⟨⟨0, 0⟩, ⟨1, 0⟩, ⟨0, 1⟩⟩] (⟨3, 0⟩ : V2 Rat) = some (1, (0, 1, 0)) := by
+  decide +kernel
+
+/-- **The point `MapFn` uses is the nearest point of the triangle.**  For a triangle with
+non-degenerate edges and a query `p` outside it — barycentric coordinates `(a,b,c)`, summing to 1,
+with a negative entry — no point `q` of the SOLID triangle (coordinates `(α,β,γ) ≥ 0` summing to 1),
+and in particular no point of its three edges, is closer to `p` than the point `genericSDF`
+reports (whose squared distance is `(triNearest t p).1`, `mapfn_outside_returns_nearest`).  Together
+with that theorem: for a UV point outside every UV triangle `MapFn` interpolates at the nearest
+point of the whole triangulation. -/
+theorem mapfn_nearest_point_closest (t : Tri2 K)
+    (hab : 0 < dot2 (t.b.sub t.a) (t.b.sub t.a)) (hbc : 0 < dot2 (t.c.sub t.b) (t.c.sub t.b))
+    (hca : 0 < dot2 (t.a.sub t.c) (t.a.sub t.c))
+    (a b c : K) (habc : a + b + c = 1) (hneg : a < 0 ∨ b < 0 ∨ c < 0) :
+    (∀ α β γ : K, 0 ≤ α → 0 ≤ β → 0 ≤ γ → α + β + γ = 1 →
+      (triNearest t (atBary2 t (a, b, c))).1 ≤ dist2 (atBary2 t (α, β, γ)) (atBary2 t (a, b, c))) ∧
+    (∀ s : K, 0 ≤ s → s ≤ 1 →
+      (triNearest t (atBary2 t (a, b, c))).1 ≤ dist2 (segPoint t.a t.b (1 - s, s)) (atBary2 t (a, b, c)) ∧
+      (triNearest t (atBary2 t (a, b, c))).1 ≤ dist2 (segPoint t.b t.c (1 - s, s)) (atBary2 t (a, b, c)) ∧
+      (triNearest t (atBary2 t (a, b, c))).1 ≤ dist2 (segPoint t.c t.a (1 - s, s)) (atBary2 t (a, b, c))) :=
+  ⟨fun α β γ hα hβ hγ hsum => triNearest_le_solid t hab hbc hca a b c α β γ habc hneg hα hβ hγ hsum,
+   fun s hs0 hs1 => triNearest_min t _ hab hbc hca s hs0 hs1⟩
+
+/-- Non-vacuity: the unit right triangle and the query (2, 0) = 2·B − A (coordinates (−1, 2, 0)):
+the reported squared distance is 1 (corner B). -/
+example : (triNearest (⟨⟨0, 0⟩, ⟨1, 0⟩, ⟨0, 1⟩⟩ : Tri2 Rat) (atBary2 ⟨⟨0, 0⟩, ⟨1, 0⟩, ⟨0, 1⟩⟩ (-1, 2, 0))).1 = 1 := by
+  decide +kernel
 
 end M3d.C18
